@@ -37,6 +37,13 @@ def gen_count(rng, n, tier):
         common = rng.random() < 0.3
         k = rng.randint(1, 14)
         files = [[rng.choice(ROOTS), rng.choice(RELS)] for _ in range(k)]
+        if rng.random() < 0.03:
+            # very many directories visited in an interleaved order (a bounded memo of per-directory counters would forget some)
+            ndirs = rng.choice([100, 129, 150, 300])
+            rounds = rng.randint(2, 3)
+            files = [["/r", "d%03d/f%d" % (d, j)] for j in range(rounds) for d in range(ndirs)]
+            if rng.random() < 0.5:
+                files = files + [["/r", "d000/again"], ["/r", "d001/again"]]
         yield {"start": start, "step": step, "width": width, "common": common, "files": files}
 
 
